@@ -62,7 +62,7 @@ class EvloopFam(Family):
             fl = rng.choice(FLAGS)
             return f"r:{rng.choice('AB') if 'a' in fl else rng.choice(TYPES)}:{fl}:{rng.randrange(0, nprogs + 1)}"
 
-    def _script(self, rng, n, ctx=False):
+    def _script(self, rng, n, ctx=False, tickers=0.0):
         st = {"n": 0, "regs": 0, "ctxs": 0}
         cap = rng.choice((1, 1, 2, 2, 3, 4, 6))
         lines = [f"el.new {cap}"]
@@ -71,6 +71,9 @@ class EvloopFam(Family):
             lines.append("prog " + " ".join(self._act(rng, st, nprogs, True) for _ in range(rng.randrange(0, 3))))
         types = TYPES + ("VO" if ctx else "")
         for _ in range(n):
+            if tickers and rng.random() < tickers:
+                lines.append("ticker")     # AddTicker: its start event queues up with the others (C14-r6m1)
+                continue
             r = rng.random()
             if r < 0.18:
                 ty, fl = rng.choice(types), rng.choice(FLAGS)
@@ -140,6 +143,15 @@ class EvloopFam(Family):
         for k in range(500 if quick else 10000):
             rnd.append((f"rand-ctx-{k}", self._script(rng, rng.randrange(5, 50), ctx=True)))
         yield from rnd
+        # tickers added while events are pending: the start event is dropped, and reported, like any other oldest
+        # event of a full queue, and takes its turn otherwise
+        for k in range(250 if quick else 5000):
+            yield (f"rand-ticker-{k}", self._script(rng, rng.randrange(5, 40), tickers=rng.choice((0.08, 0.15, 0.3))))
+        for cap in (1, 2, 3, 4):
+            for pos in range(cap + 1):
+                lines = [f"el.new {cap}", "reg A -"] + [f"add A{i}" for i in range(pos)] + ["ticker"] + \
+                        [f"add A{i}" for i in range(pos, pos + cap + 2)] + ["len"] + ["tick"] * (cap + 2)
+                yield (f"ticker-overflow-c{cap}-p{pos}", lines)
         yield ("malformed", ["add A1", "tick", "prog a:A1", "el.new 0", "tick", "el.new x", "el.new 2", "add X1", "add A", "add 1",
                              "reg A q", "reg A - z:1", "reg A - u:", "reg D -", "tick 1", "unreg x", "unreg 9", "delay A", "delay A B",
                              "delay Z A1", "vctx x", "cancel 0", "err 0", "cancel x", "prog r:A:-:0 u:x", "reg A - r:A:-:7", "add A1",
